@@ -134,7 +134,7 @@ func tryReplay(w *world, o *vc.OblResult, ex *vc.Exec, rp *Replay) {
 		}
 		if match {
 			rp.Confirmed = true
-			rp.Notes = append(rp.Notes, "the real function returns exactly the outcome the counterexample predicts for this input; for that input/outcome pair the contract clause is false")
+			rp.Notes = append(rp.Notes, "the real function returns the outcome the counterexample predicts for this input (compared: nil-ness of pointers, errors and slices, slice lengths, scalar results); for that input/outcome pair the contract clause is false")
 		}
 	default:
 		rp.Notes = append(rp.Notes, "obligation kind "+o.O.Kind+" is not replayed")
@@ -159,12 +159,14 @@ func renderTest(p *vc.ReplayPlan) string {
 		}
 		// only packages the generated text actually mentions (an unused import
 		// does not compile)
-		if !strings.Contains(decls.String()+p.Call, p.Imports[path]+".") {
+		if !strings.Contains(decls.String()+p.Call+p.Decls, p.Imports[path]+".") {
 			continue
 		}
 		fmt.Fprintf(&sb, "\t%s %q\n", p.Imports[path], path)
 	}
-	sb.WriteString(")\n\n// generated by govc from a solver counterexample\nfunc TestGovcReplay(t *testing.T) {\n")
+	sb.WriteString(")\n\n")
+	sb.WriteString(p.Decls)
+	sb.WriteString("// generated by govc from a solver counterexample\nfunc TestGovcReplay(t *testing.T) {\n")
 	sb.WriteString(decls.String())
 	sb.WriteString("\tfunc() {\n\t\tdefer func() {\n\t\t\tif r := recover(); r != nil {\n\t\t\t\tfmt.Printf(\"GOVC-REPLAY PANIC: %v\\n\", r)\n\t\t\t}\n\t\t}()\n")
 	var rs []string
